@@ -172,7 +172,12 @@ def child(case):
         await witness.call('blockchain.headers.subscribe')
         for s in w.scripts[:4]:
             await witness.call('blockchain.scripthash.subscribe', [scripthash_hex(s)])
+        # let the periodic refresh deliver whatever it has pending for the witness before the hostile requests start
+        await asyncio.sleep(11)
         wit_msgs = len(witness.tr.out)
+        from exv.oracle import MempoolOracle, admissible_statuses
+        mo = MempoolOracle(orc, w.mempool)
+        true_status = {scripthash_hex(s_): admissible_statuses(orc, mo, hashx(s_))[0] for s_ in w.scripts[:4]}
         pg, pp = GENERIC, plausible(w, orc, rng)
         methods = sorted(METHODS)
 
@@ -253,7 +258,17 @@ def child(case):
                 bump(f'ok:{method}')
             out['sigs'].append(digest((method, 'err' if 'error' in reply else 'ok', reply.get('error', {}).get('message', '')[:25] if 'error' in reply else '')))
             if len(witness.tr.out) != wit_msgs:
-                viol('witness/other-client-affected', f'another client received {witness.tr.out[wit_msgs:][:2]} after {method}', wit)
+                # the world is static: whatever another client is told must still be the truth
+                for m_ in witness.tr.out[wit_msgs:]:
+                    bump('witness_messages_judged')
+                    okm = False
+                    if m_.get('method') == 'blockchain.scripthash.subscribe':
+                        sh_, st_ = m_['params']
+                        okm = st_ in true_status.get(sh_, ())
+                    elif m_.get('method') == 'blockchain.headers.subscribe':
+                        okm = m_['params'][0] == {'hex': w.tip.header.hex(), 'height': w.height()}
+                    if not okm:
+                        viol('witness/other-client-told-falsehood', f'another client received {str(m_)[:300]} after {method} although nothing changed', wit)
                 wit_msgs = len(witness.tr.out)
         exc = srv.check_task()
         if exc:
@@ -299,6 +314,6 @@ def run(tier, seed, replay=None):
              'dictionaries) so that handlers are entered deeply; sent as raw messages through the real session path against a '
              'populated index with a 230-tx block and a mempool, PEER_DISCOVERY off and on. Monitors: exception type escaping '
              'handle_request; reply shape; no -32603; on error replies the session subscription state is unchanged and no cache entry '
-             'is changed or wrong; a subscribed witness client receives nothing. distinct = (method, outcome, error message prefix)',
+             'is changed or wrong; whatever a subscribed witness client receives meanwhile must be the (unchanged) truth. distinct = (method, outcome, error message prefix)',
         assumptions=['a cache entry that is new after a refused request but holds the correct value is not counted as an alteration',
                      'requests are sent sequentially per session (concurrent handler interleavings belong to C07/C10)'])
